@@ -24,6 +24,7 @@ PANIC_FNS = re.compile(r'^(panicking::(panic|panic_fmt|panic_display|panic_expli
 METHODS = {'Vec::remove', 'Vec::swap_remove', 'Vec::drain', 'Vec::insert', 'Vec::split_off', '[T]::split_at',
            'String::remove', 'String::insert', 'String::insert_str', 'str::split_at', 'VecDeque::remove',
            '[T]::copy_from_slice', '[T]::swap', 'Vec::truncate_panic', 'String::drain', 'String::replace_range',
+           'String::truncate', 'String::split_off', 'str::split_at_mut', 'str::split_at_checked_panic',
            'char::from_digit', 'Duration::from_secs_f32', 'Rc::get_mut_unchecked', '[T]::chunks', '[T]::windows'}
 BORROWS = {'RefCell::borrow', 'RefCell::borrow_mut'}
 
